@@ -234,6 +234,7 @@ inductive Err
   | unsupUnary     -- "unsupported unary arithmetic operator"
   | unsupBinary    -- "unsupported binary arithmetic operator"
   | readOnly       -- `envSet` failed
+  | unsupTarget    -- "unsupported assignment target" (`nodeLit(X) == ""`: not a literal word)
   -- the remaining classes are produced by the specification only
   | badNumber      -- bash: value too great for base / invalid arithmetic base / invalid number
   | syntaxErr      -- bash: syntax error in expression
@@ -305,9 +306,10 @@ def setVar (env : Env) (n : Bytes) (v : Int) : Res × Env :=
   | none => (.err .readOnly, env)
   | some env' => (.ok v, env')
 
-/-- `expr.X.(*syntax.Word).Lit()`: the literal of a word operand; `none` is the failed assertion. -/
+/-- `nodeLit(expr.X)`: the literal of a word operand; `none` stands for Go's `""` (not a word,
+    or an empty literal), which `Arithm` rejects as "unsupported assignment target". -/
 def wordOf : Expr → Option Bytes
-  | .word w => some w
+  | .word w => if w = [] then none else some w
   | _ => none
 
 mutual
@@ -322,7 +324,7 @@ def evalArith (env : Env) : Expr → Res × Env
         let old := atoi (env.get name)
         let val := if op = .inc then wrap64 (old + 1) else wrap64 (old - 1)
         andThen (setVar env name val) fun _ env' => (.ok (if post then old else val), env')
-      | none => (.panic, env)
+      | none => (.err .unsupTarget, env)
     else
       andThen (evalArith env x) fun v env' =>
         match op with
@@ -343,7 +345,7 @@ def evalArith (env : Env) : Expr → Res × Env
             match binArit aop val arg with
             | .ok v => setVar env' name v
             | e => (e, env')
-      | none => (.panic, env)
+      | none => (.err .unsupTarget, env)
     else if op = .ternQuest then
       andThen (evalArith env x) fun cond env' => evalTernBranch env' cond y
     else if op = .andL ∨ op = .orL then
